@@ -8,7 +8,7 @@
    sequences of batches, hence also describes the designs of an early batch after any number of
    later batches.  T, the arithmetic, Python's sum(), the objective f, the sign conversion sgn,
    the feasibility flag, the tolerances and the number m of declared objectives are arbitrary. *)
-From Coq Require Import List ZArith Arith Bool.
+From Coq Require Import List ZArith Arith Bool Lia.
 From Artap Require Import Model.Evaluators Proofs.EvaluatorsProofs.
 Import ListNotations.
 Local Open Scope nat_scope.
@@ -64,7 +64,7 @@ Section C14.
      recomputed from the costs recorded in the children, is also features['sensitivity'], and sits
      in costs_signed between the m signed user objectives and the feasibility flag (m + 2 entries
      when the sign conversion keeps the length).  Children keep their m plain costs. *)
-  Theorem C14_worstcase_cost_shape : (forall v, length (f v) = m) -> 1 <= m ->
+  Theorem C14_worstcase_cost_shape_fresh_batches : (forall v, length (f v) = m) -> 1 <= m ->
     forall bs s idss, wc_seq (init T) bs = (s, idss) ->
     Forall2 (Forall2 (fun id v =>
       let d := cell s id in
@@ -130,11 +130,94 @@ Section C14.
     s_inds T s = [] /\ s_todo T s = [] /\ s_proc T s = idss /\ NoDup (concat idss) /\
     Forall2 (fun ids b => length ids = length b) idss bs.
   Proof. exact (g_no_reprocessing_thm T add sub div zero delta f sgn infeas). Qed.
+  (* ---- histories in which a batch may contain designs that are not fresh (F11) ----
+     A batch is a list of items: `New v` (a design created for this batch), `Pre v` (created and
+     already evaluated by a plain Evaluator, never post-processed) and `Old k` (the k-th design
+     created so far, submitted AGAIN); wf_hist: within a batch the Old indices are distinct and
+     refer to designs of earlier batches.  hist_vecs gives the vector of every item. *)
+  Local Notation wc_run := (wc_hist T add sub mul abs zero one mone psum m tols f sgn infeas).
+  Local Notation g_run := (g_hist T add sub div zero delta f sgn infeas).
+
+  (* After ANY well-formed history every design of every batch - however often it was submitted -
+     has exactly m + 1 costs f(x) ++ [S], S = Python's sum of |f0(x) - f0(child)| over its CURRENT
+     2n children (each processing replaces the children by 2n new ones with the same displaced
+     vectors) and equal to the sum recomputed from the costs stored in those children, m + 2 signed
+     entries, features['sensitivity'] = S; the children are linked to it, evaluated, with m costs. *)
+  Theorem C14_worstcase_cost_shape : (forall v, length (f v) = m) -> 1 <= m ->
+    forall bs, wf_hist T 0 bs ->
+    forall s idss, wc_run (init T) [] bs = (s, idss) ->
+    Forall2 (Forall2 (fun id v =>
+      let d := cell s id in
+      let S := psum (map (fun w => abs (sub (c0 (f v)) (c0 (f w)))) (wcv v)) in
+      d_vec T d = v /\ d_parents T d = [] /\
+      d_costs T d = f v ++ [S] /\ length (d_costs T d) = m + 1 /\
+      S = psum (map (fun c => abs (sub (c0 (d_costs T d)) (c0 (d_costs T (cell s c))))) (d_children T d)) /\
+      d_sens T d = Some S /\
+      d_signed T d = map SV (sgn (f v)) ++ [SV S; SB (infeas v)] /\
+      length (d_signed T d) = length (sgn (f v)) + 2 /\
+      d_state T d = EVALUATED /\
+      NoDup (d_children T d) /\ length (d_children T d) = 2 * length v /\
+      map (fun c => d_vec T (cell s c)) (d_children T d) = wcv v /\
+      Forall (fun c => d_parents T (cell s c) = [id] /\ d_costs T (cell s c) = f (d_vec T (cell s c)) /\
+                       d_state T (cell s c) = EVALUATED /\ d_sens T (cell s c) = None /\ c <> id)
+             (d_children T d))) idss (hist_vecs T [] bs).
+  Proof.
+    exact (fun Hf Hm bs Hwf s idss Hrun =>
+             proj2 (proj2 (proj2 (proj2 (wc_hist_thm T add sub mul abs zero one mone psum m tols f sgn infeas
+                                                       Hf Hm bs Hwf s idss Hrun))))).
+  Qed.
+
+  (* "Not re-processed" under resubmission: the work lists are empty after every batch and the k-th
+     run() call post-processes exactly the designs submitted in batch k, in order (a design is
+     post-processed once per batch it is submitted in, never in another one).  Objective calls: a
+     design is evaluated once, when it is first submitted (Pre: before), because Job.evaluate is
+     only reached for EMPTY individuals; every submission evaluates 2n NEW children.  The log is the
+     static list hist_log: per batch the Pre vectors, then the New vectors, then the 2n child
+     vectors of every item; for n-dimensional designs that is #designs + 2n * #submissions calls. *)
+  Theorem C14_worstcase_processing_and_calls : (forall v, length (f v) = m) -> 1 <= m ->
+    forall bs, wf_hist T 0 bs ->
+    forall s idss, wc_run (init T) [] bs = (s, idss) ->
+    s_inds T s = [] /\ s_todo T s = [] /\ s_proc T s = idss /\
+    s_log T s = hist_log T
+                  (fun infos => map snd (filter fst infos) ++ flat_map (fun p : bool * list T => wcv (snd p)) infos) [] bs /\
+    forall n, Forall (Forall (fun v => length v = n)) (hist_vecs T [] bs) ->
+              length (s_log T s) = length (flat_map (new_vecs T) bs) + 2 * n * length (concat bs).
+  Proof.
+    exact (fun Hf Hm bs Hwf s idss Hrun =>
+             match wc_hist_thm T add sub mul abs zero one mone psum m tols f sgn infeas Hf Hm bs Hwf s idss Hrun with
+             | conj A (conj B (conj C (conj D _))) =>
+                 conj A (conj B (conj C (conj D (fun n Hn =>
+                   eq_trans (f_equal (@length _) D)
+                            (wc_hist_log_length T add mul zero one mone tols n bs [] Hn)))))
+             end).
+  Qed.
+
+  (* The gradient evaluator under the same histories (non-empty batches): gradient, costs, children
+     as for fresh batches, recomputed (with n new children, n more calls) at every submission. *)
+  Theorem C14_gradient_with_resubmission : forall bs, wf_hist T 0 bs -> Forall (fun b => b <> []) bs ->
+    exists s idss, g_run (init T) [] bs = Some (s, idss) /\
+    s_inds T s = [] /\ s_todo T s = [] /\ s_proc T s = idss /\
+    s_log T s = hist_log T
+                  (fun infos => flat_map (fun p : bool * list T => (if fst p then [snd p] else []) ++ gcv (snd p)) infos) [] bs /\
+    Forall2 (Forall2 (fun id v =>
+      let d := cell s id in
+      d_vec T d = v /\ d_parents T d = [] /\ d_costs T d = f v /\ d_state T d = EVALUATED /\
+      d_grad T d = Some (map (fun i => div (sub (c0 (f (set_nth T i (add (nth i v zero) delta) v))) (c0 (f v))) delta)
+                             (seq 0 (length v))) /\
+      d_grad T d = Some (map (fun c => div (sub (c0 (d_costs T (cell s c))) (c0 (d_costs T d))) delta) (d_children T d)) /\
+      NoDup (d_children T d) /\ length (d_children T d) = length v /\
+      map (fun c => d_vec T (cell s c)) (d_children T d) = gcv v /\
+      Forall (fun c => d_parents T (cell s c) = [id] /\ d_costs T (cell s c) = f (d_vec T (cell s c)) /\
+                       d_state T (cell s c) = EVALUATED /\ c <> id) (d_children T d))) idss (hist_vecs T [] bs).
+  Proof. exact (g_hist_thm T add sub div zero delta f sgn infeas). Qed.
 End C14.
 
 Print Assumptions C14_worstcase_children.
 Print Assumptions C14_displaced_one_axis.
+Print Assumptions C14_worstcase_cost_shape_fresh_batches.
 Print Assumptions C14_worstcase_cost_shape.
+Print Assumptions C14_worstcase_processing_and_calls.
+Print Assumptions C14_gradient_with_resubmission.
 Print Assumptions C14_worstcase_no_reprocessing.
 Print Assumptions C14_worstcase_call_budget.
 Print Assumptions C14_gradient_forward_difference.
@@ -175,19 +258,24 @@ Example C14_ex_gradient :
   end.
 Proof. split; [repeat constructor; discriminate|]. vm_compute. repeat split. Qed.
 
-(* the length test `len(costs) > self.n` (self.n = m + 1): a design that is handed to evaluate() a
-   SECOND time - which no population algorithm of artap does, and which the theorems above exclude
-   by creating the designs of every batch - is post-processed again and gets m + 2 costs; only from
-   the third time on the entry is overwritten.  Recorded here so that the limit of the theorems is
-   explicit (see notes/C14.md). *)
-Example C14_ex_resubmission_quirk :
-  let wce := wc_evaluate Z Z.add Z.sub Z.mul Z.abs 0%Z 1%Z (-1)%Z exsum 2 [1; 2]%Z exf exsgn (fun _ => true) in
-  let '(s1, _) := wc_batches Z Z.add Z.sub Z.mul Z.abs 0%Z 1%Z (-1)%Z exsum 2 [1; 2]%Z exf exsgn
-                             (fun _ => true) (init Z) [[[1; 2]]]%Z in
-  let s2 := wce s1 [0] in
-  let s3 := wce s2 [0] in
-  d_costs Z (h_get Z (s_heap Z s1) 0) = [3; -1; 8]%Z /\
-  d_costs Z (h_get Z (s_heap Z s2) 0) = [3; -1; 8; 8]%Z /\
-  d_costs Z (h_get Z (s_heap Z s3) 0) = [3; -1; 8; 8]%Z /\
-  length (s_log Z s1) = 5 /\ length (s_log Z s2) = 9 /\ length (s_log Z s3) = 13.
-Proof. vm_compute. repeat split. Qed.
+(* F11 repaired (`len(costs) >= self.n`): a design handed to evaluate() again and again keeps
+   m + 1 = 3 costs; it is evaluated once, and every submission costs 2n = 4 calls for new children.
+   History: [x]; [x again]; [x again, y]; [z pre-evaluated, y again]. *)
+Definition exhist : list (list (item Z)) :=
+  [[New [1; 2]]; [Old 0]; [Old 0; New [3; 4]]; [Pre [5; 6]; Old 1]]%Z.
+
+Example C14_ex_resubmission :
+  wf_hist Z 0 exhist /\
+  let '(s, idss) := wc_hist Z Z.add Z.sub Z.mul Z.abs 0%Z 1%Z (-1)%Z exsum 2 [1; 2]%Z exf exsgn
+                            (fun _ => true) (init Z) [] exhist in
+  idss = [[0]; [0]; [0; 9]; [18; 9]] /\
+  map (map (fun id => d_costs Z (h_get Z (s_heap Z s) id))) idss =
+    [[[3; -1; 8]]; [[3; -1; 8]]; [[3; -1; 8]; [13; -1; 16]]; [[31; -1; 24]; [13; -1; 16]]]%Z /\
+  d_signed Z (h_get Z (s_heap Z s) 0) = [SV (-3)%Z; SV 1%Z; SV 8%Z; SB true] /\
+  d_children Z (h_get Z (s_heap Z s) 0) = [10; 11; 12; 13] /\
+  length (s_log Z s) = 3 + 2 * 2 * 6 /\ s_proc Z s = idss /\ s_inds Z s = [] /\ s_todo Z s = [].
+Proof.
+  split.
+  - cbn. repeat split; repeat constructor; cbn; try lia; intuition discriminate.
+  - vm_compute. repeat split.
+Qed.
